@@ -29,6 +29,13 @@ Proof.
   rewrite !Z.compare_ge_iff. lia.
 Qed.
 
+Lemma cmp_opt_eq a b : cmp_opt a b = Eq <-> a = b.
+Proof.
+  destruct a as [x|], b as [y|]; cbn; split; intros H; try congruence; try discriminate.
+  - apply Z.compare_eq in H. congruence.
+  - inversion H. apply Z.compare_refl.
+Qed.
+
 Section SortProofs.
 Context {A : Type} (val : col -> A -> option Z).
 
@@ -199,6 +206,173 @@ Proof.
     f_equal. apply IH; auto.
     + eapply Permutation_cons_inv; exact HP.
     + intros; apply Hanti; auto; right; assumption.
+Qed.
+
+
+(* ------------------------------------------------------------------ *)
+(* stability, uniqueness of the stable sorted arrangement, key forms    *)
+(* ------------------------------------------------------------------ *)
+Lemma cmp_key_eq k x y : cmp_key val k x y = Eq <-> val (k_col k) x = val (k_col k) y.
+Proof.
+  unfold cmp_key. rewrite <- cmp_opt_eq.
+  destruct (k_desc k); [|tauto].
+  destruct (cmp_opt (val (k_col k) x) (val (k_col k) y)); cbn; split; congruence.
+Qed.
+
+Lemma lex_eq_refl ks x : lex_eq val ks x x = true.
+Proof.
+  induction ks as [|k ks IH]; cbn; [reflexivity|].
+  assert (cmp_key val k x x = Eq) as -> by (apply cmp_key_eq; reflexivity). exact IH.
+Qed.
+
+Lemma lex_eq_head k ks x y : lex_eq val (k :: ks) x y = true -> cmp_key val k x y = Eq.
+Proof. cbn. destruct (cmp_key val k x y); congruence. Qed.
+
+Lemma lex_le_antisym_eq ks x y :
+  lex_le val ks x y = true -> lex_le val ks y x = true -> lex_eq val ks x y = true.
+Proof.
+  induction ks as [|k ks IH]; cbn; [reflexivity|].
+  rewrite (cmp_key_antisym k x y).
+  destruct (cmp_key val k x y); cbn; try congruence. exact IH.
+Qed.
+
+(* the single-key sort keeps the relative order of elements that tie on the key *)
+Lemma insert_key_filter (P : A -> bool) k a l x :
+  (forall y, P y = true -> cmp_key val k x y = Eq) ->
+  filter P (insert_key val k a l) = filter P (a :: l).
+Proof.
+  intros HP. induction l as [|y r IH]; [reflexivity|].
+  cbn [insert_key]. destruct (le_key val k a y) eqn:E; [reflexivity|].
+  cbn [filter] in *. rewrite IH.
+  destruct (P a) eqn:Pa, (P y) eqn:Py; try reflexivity.
+  exfalso. apply HP in Pa. apply HP in Py. rewrite cmp_key_eq in Pa, Py.
+  assert (cmp_key val k a y = Eq) as Hc by (apply cmp_key_eq; congruence).
+  unfold le_key in E. rewrite Hc in E. discriminate.
+Qed.
+
+Lemma sort_key_filter (P : A -> bool) k l x :
+  (forall y, P y = true -> cmp_key val k x y = Eq) ->
+  filter P (sort_key val k l) = filter P l.
+Proof.
+  intros HP. induction l as [|a l IH]; [reflexivity|].
+  change (sort_key val k (a :: l)) with (insert_key val k a (sort_key val k l)).
+  rewrite (insert_key_filter P k a _ x HP). cbn [filter]. rewrite IH. reflexivity.
+Qed.
+
+Lemma filter_lex_eq_cons k ks x m :
+  filter (lex_eq val (k :: ks) x) m =
+  filter (fun y => match cmp_key val k x y with Eq => true | _ => false end) (filter (lex_eq val ks x) m).
+Proof.
+  induction m as [|a m IH]; [reflexivity|].
+  cbn [filter].
+  change (lex_eq val (k :: ks) x a) with (match cmp_key val k x a with Eq => lex_eq val ks x a | _ => false end).
+  destruct (lex_eq val ks x a) eqn:E.
+  - cbn [filter]. destruct (cmp_key val k x a); rewrite IH; reflexivity.
+  - destruct (cmp_key val k x a); exact IH.
+Qed.
+
+Lemma multi_sort_stable ks l : stable_wrt val ks l (multi_sort ks l).
+Proof.
+  unfold stable_wrt. induction ks as [|k ks IH]; intros x; [reflexivity|].
+  cbn [multi_sort fold_right].
+  rewrite (sort_key_filter _ k _ x) by (intros y; apply lex_eq_head).
+  rewrite !filter_lex_eq_cons. fold (multi_sort ks l). rewrite IH. reflexivity.
+Qed.
+
+Lemma doSort_stable ks l :
+  ks <> [] ->
+  exists l', doSort val (S (length ks)) ks l = Some l' /\ stable_wrt val ks l l'.
+Proof.
+  intros Hne. exists (multi_sort ks l). split; [apply doSort_char; [exact Hne|lia]|apply multi_sort_stable].
+Qed.
+
+Lemma apply_order_stable o l :
+  order_ok o = true ->
+  exists l', apply_order val o l = Some l' /\ stable_wrt val (order_keys o) l l'.
+Proof.
+  destruct o as [|k|ks]; intros Hok; cbn.
+  - exists l. split; [reflexivity|intros x; reflexivity].
+  - exists (sort_key val k l). split; [reflexivity|]. apply (multi_sort_stable [k] l).
+  - apply doSort_stable. destruct ks; [discriminate|congruence].
+Qed.
+
+(* sorted by the keys + stable pins the arrangement down: two lists that are
+   both sorted and agree on the order inside every tie class are equal *)
+Lemma stable_sorted_unique ks l1 : forall l2,
+  StronglySorted (lexR ks) l1 -> StronglySorted (lexR ks) l2 ->
+  (forall x, filter (lex_eq val ks x) l1 = filter (lex_eq val ks x) l2) ->
+  l1 = l2.
+Proof.
+  induction l1 as [|x1 t1 IH]; intros l2 S1 S2 H.
+  - destruct l2 as [|y t]; [reflexivity|]. specialize (H y). cbn in H. rewrite lex_eq_refl in H. discriminate.
+  - destruct l2 as [|x2 t2].
+    { specialize (H x1). cbn in H. rewrite lex_eq_refl in H. discriminate. }
+    inversion S1 as [|? ? S1' F1]; subst. inversion S2 as [|? ? S2' F2]; subst.
+    rewrite Forall_forall in F1, F2.
+    assert (Hin2 : In x2 (x1 :: t1)).
+    { pose proof (H x2) as H2. cbn [filter] in H2. rewrite (lex_eq_refl ks x2) in H2.
+      assert (In x2 (if lex_eq val ks x2 x1 then x1 :: filter (lex_eq val ks x2) t1 else filter (lex_eq val ks x2) t1))
+        as Hi by (rewrite H2; left; reflexivity).
+      destruct (lex_eq val ks x2 x1); [destruct Hi as [->|Hi]; [left; reflexivity|]|];
+        right; apply filter_In in Hi; tauto. }
+    assert (Hin1 : In x1 (x2 :: t2)).
+    { pose proof (H x1) as H1. cbn [filter] in H1. rewrite (lex_eq_refl ks x1) in H1.
+      assert (In x1 (if lex_eq val ks x1 x2 then x2 :: filter (lex_eq val ks x1) t2 else filter (lex_eq val ks x1) t2))
+        as Hi by (rewrite <- H1; left; reflexivity).
+      destruct (lex_eq val ks x1 x2); [destruct Hi as [->|Hi]; [left; reflexivity|]|];
+        right; apply filter_In in Hi; tauto. }
+    assert (x1 = x2) as ->.
+    { destruct Hin2 as [->|Hin2]; [reflexivity|]. destruct Hin1 as [->|Hin1]; [reflexivity|].
+      pose proof (lex_le_antisym_eq ks x1 x2 (F1 _ Hin2) (F2 _ Hin1)) as He.
+      pose proof (H x1) as H1. cbn [filter] in H1. rewrite (lex_eq_refl ks x1), He in H1. congruence. }
+    f_equal. apply IH; auto.
+    intros x. specialize (H x). cbn [filter] in H. destruct (lex_eq val ks x x2); congruence.
+Qed.
+
+Lemma doSort_determined ks l l2 :
+  ks <> [] ->
+  StronglySorted (lexR ks) l2 -> stable_wrt val ks l l2 ->
+  doSort val (S (length ks)) ks l = Some l2.
+Proof.
+  intros Hne S2 St. rewrite doSort_char by (auto; lia). f_equal.
+  apply (stable_sorted_unique ks); [apply multi_sort_sorted|exact S2|].
+  intros x. rewrite (multi_sort_stable ks l x). symmetry. apply St.
+Qed.
+
+(* how a key is written does not matter to the Python-side sort *)
+Lemma le_key_form k k' x y : same_key k k' -> le_key val k x y = le_key val k' x y.
+Proof. intros [Hc Hd]. unfold le_key, cmp_key. rewrite Hc, Hd. reflexivity. Qed.
+
+Lemma sort_key_form k k' l : same_key k k' -> sort_key val k l = sort_key val k' l.
+Proof.
+  intros Hk. induction l as [|a l IH]; [reflexivity|].
+  change (insert_key val k a (sort_key val k l) = insert_key val k' a (sort_key val k' l)).
+  rewrite IH. generalize (sort_key val k' l) as m. induction m as [|y m IHm]; [reflexivity|].
+  cbn [insert_key]. rewrite (le_key_form k k' a y Hk), IHm. reflexivity.
+Qed.
+
+Lemma multi_sort_form ks ks' l : Forall2 same_key ks ks' -> multi_sort ks l = multi_sort ks' l.
+Proof.
+  induction 1 as [|k k' ks ks' Hk Hks IH]; [reflexivity|].
+  cbn [multi_sort fold_right]. fold (multi_sort ks l) (multi_sort ks' l).
+  rewrite IH. apply sort_key_form. exact Hk.
+Qed.
+
+Lemma apply_order_form o o' l : same_order o o' -> apply_order val o l = apply_order val o' l.
+Proof.
+  destruct o as [|k|ks], o' as [|k'|ks']; cbn [same_order apply_order]; try contradiction; intros H.
+  - reflexivity.
+  - f_equal. apply sort_key_form. exact H.
+  - destruct ks as [|k ks].
+    + inversion H; subst. reflexivity.
+    + destruct ks' as [|k' ks']; [inversion H|].
+      rewrite !doSort_char by (try congruence; lia). f_equal. apply multi_sort_form. exact H.
+Qed.
+
+Lemma lex_le_form ks ks' x y : Forall2 same_key ks ks' -> lex_le val ks x y = lex_le val ks' x y.
+Proof.
+  induction 1 as [|k k' ks ks' [Hc Hd] Hks IH]; [reflexivity|].
+  cbn [lex_le]. unfold cmp_key. rewrite Hc, Hd, IH. reflexivity.
 Qed.
 
 Lemma ssorted_b_sound (le : A -> A -> bool) l :
